@@ -21,6 +21,18 @@ impl Parseable for Size {
             // Default. For Size this is Block
             u64::parse.map(Size::Block),
         ))
+        // The byte count (count * unit) must fit the size type, or it could not be compared
+        .verify(|size: &Size| {
+            let (Size::Byte(count)
+            | Size::Word(count)
+            | Size::Block(count)
+            | Size::KiloByte(count)
+            | Size::MegaByte(count)
+            | Size::GigaByte(count)
+            | Size::TeraByte(count)) = size;
+            count.checked_mul(size.mult()).is_some()
+        })
+        .context(expected("size_out_of_range"))
         .context(label("size"))
         .parse_next(input)
     }
